@@ -412,7 +412,8 @@ def finish(prop, tier, seed, mod, cases, results, known, wall):
         "violations": n_viol_total,
         "coverage": {
             "states": max(tot.paths, 0),
-            "transitions": tot.decisions + tot.choices,
+            "transitions": tot.decisions + tot.choices + tot.discharged,
+            "transitions_rule": "symbolic branch decisions + enumerated choices + obligations discharged by the solver",
             "traces_validated_against_impl": validated,
             "samples": samples or [{"note": "no obligation sample recorded"}],
             "obligations": tot.discharged + tot.sat + tot.unknown,
